@@ -61,6 +61,9 @@ func writeEvidence(prop, tier string, seed int, results []*HarnessResult, wall f
 				if o.Res == "sat" {
 					coversSat++
 				}
+				if !o.Trivial {
+					nontrivial[r.Harness+"/witness:"+o.ID] = true
+				}
 				continue
 			}
 			obligations++
@@ -103,7 +106,7 @@ func writeEvidence(prop, tier string, seed int, results []*HarnessResult, wall f
 		"evaluations":         evaluations,
 		"distinct_nontrivial": len(nontrivial),
 		"rule": "evaluations = SMT queries issued (feasibility + obligations); an obligation is one (harness, assertion id) pair whose query is the disjunction over all symbolic paths reaching it of (path condition AND NOT assertion); " +
-			"it is non-trivial when the query did not simplify to false syntactically and had to be decided by the solver; distinct = distinct (harness, id)",
+			"it is non-trivial when the query did not simplify to false syntactically and had to be decided by the solver; reachability witnesses (cover points, which must be satisfiable) decided by the solver are counted the same way; distinct = distinct (harness, id)",
 		"samples":              samples,
 		"obligations":          obligations,
 		"discharged":           discharged,
